@@ -27,8 +27,8 @@ Redecl ==
   { <<I(1, "psub", n1, <<>>), I(2, "psub", n2, <<>>), I(3, "pspecial", x, y), I(4, "pholder", <<1>>, y)>> :
       n1 \in Opt({1, 2}), n2 \in Opt({1}), x \in {<<>>, <<1, 2>>, <<2>>}, y \in Opt({1, 2}) }
 SetValued ==
-  { <<I(1, t1, <<>>, <<>>), I(2, "inode", <<>>, <<>>), I(3, h1, x1, y1), I(4, "iholder", x2, y2)>> :
-      t1 \in {"inode", "isubnode", "isubsub", "idia", "idl"}, h1 \in {"iholder", "isub"},
+  { <<I(1, t1, <<>>, <<>>), I(2, "inode", <<>>, <<>>), I(3, h1, x1, y1), I(4, h2, x2, y2)>> :
+      t1 \in {"inode", "isubnode", "isubsub", "idia", "idl"}, h1 \in {"iholder", "isub", "imulti"}, h2 \in {"iholder", "imulti"},
       x1 \in {<<>>, <<1>>, <<2>>, <<1, 2>>, <<1, 1>>}, y1 \in Opt({1}),
       x2 \in {<<>>, <<1>>, <<2>>, <<1, 2>>, <<1, 1>>}, y2 \in Opt({1}) }
 (* a recursive entity: every assignment of parents among three instances, an instance being its own parent included *)
